@@ -319,6 +319,24 @@ impl<'w> ChainSim<'w> {
 				));
 			}
 		}
+		if self.oracles.head {
+			// every block waiting in the orphan pool must still be waiting for its parent: once the
+			// parent is accepted the orphan has to be adopted in the same call (otherwise the final
+			// head depends on the delivery order)
+			let m = &self.models[n];
+			for o in m.orphans.iter() {
+				let p = self.world.blocks[*o].parent.unwrap_or(0);
+				if m.accepted.contains(&p) {
+					return Err(self.viol(
+						"orphan-not-adopted",
+						format!(
+							"node {}: block #{} (h{}, td {}) was delivered before its parent #{} and is still not accepted although the parent now is; head is #{} (td {})",
+							n, o, self.world.blocks[*o].height, self.td(*o), p, m.head, self.td(m.head)
+						),
+					));
+				}
+			}
+		}
 		if self.oracles.utxo {
 			self.check_utxo(n, &d)?;
 		}
@@ -765,6 +783,18 @@ impl<'w> ChainSim<'w> {
 				if let Ok(t) = self.nodes[n].chain().tail() {
 					if t.height > self.models[n].tail_height {
 						self.probe("compaction_moved_tail");
+						// did the head block at compaction time complete a spent sibling pair below the horizon?
+						let h = self.models[n].head;
+						if let Some(p) = self.world.blocks[h].parent {
+							let before = &self.world.blocks[p].ledger;
+							let after = &self.world.blocks[h].ledger;
+							let live: BTreeSet<u64> = after.values().map(|o| o.leaf).collect();
+							let hh = self.world.blocks[h].height;
+							let hit = before.values().any(|o| !after.contains_key(&crate::world::ckey(&o.commit)) && !live.contains(&(o.leaf ^ 1)) && o.height + 20 < hh);
+							if hit {
+								self.probe("compaction_head_completes_spent_pair");
+							}
+						}
 					}
 					self.models[n].tail_height = t.height;
 				}
@@ -1006,6 +1036,8 @@ pub struct SchedCfg {
 	pub validate_pct: u64,
 	pub bad_pct: u64,
 	pub compact_pct: u64,
+	/// place exactly one compaction right after a trunk block delivered within the last 8 heights
+	pub compact_once_near_tip: bool,
 	/// window (in blocks) within which body deliveries are shuffled; 0 = full permutation
 	pub shuffle_window: usize,
 }
@@ -1021,6 +1053,7 @@ impl SchedCfg {
 			validate_pct: *rng.pick(&[0, 5, 10]),
 			bad_pct: 0,
 			compact_pct: 0,
+			compact_once_near_tip: false,
 			shuffle_window: *rng.pick(&[0, 0, 4, 8]),
 		}
 	}
@@ -1124,8 +1157,18 @@ pub fn gen_schedule(world: &World, cfg: &SchedCfg, rng: &mut SimRng) -> (Vec<Op>
 		}
 		let mut seq: Vec<Op> = vec![];
 		let mut bad_done: BTreeSet<usize> = BTreeSet::new();
+		let compact_after: Option<usize> = if cfg.compact_once_near_tip {
+			let tip_h = world.blocks.iter().filter(|b| b.branch == 0).map(|b| b.height).max().unwrap_or(0);
+			let zone: Vec<usize> = world.blocks.iter().filter(|b| b.branch == 0 && b.height + 8 >= tip_h && b.height >= 81).map(|b| b.id).collect();
+			if zone.is_empty() { None } else { Some(*rng.pick(&zone)) }
+		} else {
+			None
+		};
 		for id in &bodies {
 			seq.push(Op::Block { node, id: *id });
+			if compact_after == Some(*id) {
+				seq.push(Op::Compact { node });
+			}
 			if rng.chance(cfg.dup_pct, 100) {
 				// duplicate of a random already-scheduled body
 				let k = rng.usize_below(seq.len());
